@@ -58,6 +58,7 @@ DecodeInput(e) ==
   IN IF \E i \in 1..Len(mv.traks) : ~IsSmall(mv.traks[i].tkhd.track_id)
      THEN [ok |-> FALSE, why |-> "track id does not fit 31 bits"]
      ELSE [ ok |-> TRUE, why |-> "", img |-> e.img, frag |-> frag,
+            mvhd |-> [timescale |-> mv.mvhd.timescale, duration |-> mv.mvhd.duration],
             tracks |-> [i \in 1..Len(mv.traks) |-> trk(i)],
             meta |-> DecodeMeta(mv.mb, moovK) ] ))))
 
@@ -73,4 +74,10 @@ Flags(f, t) == f.tracks[TrackIndex(f, t)].flags
 InFile(f, off, size) == size = 0 \/ SegOf(f.img, off, size) # 0
 BytesAt(f, off, size) == Win(f.img, off, size)
 Metadata(f) == f.meta
+\* movie-level accessors: the movie header's timescale; its duration in milliseconds (0 for timescale 0)
+MovieTimescale(f) == f.mvhd.timescale
+\* (saturating at 2^64 - 1, the largest Duration::from_millis argument)
+MovieDurationMs(f) == IF f.mvhd.timescale = <<>> THEN <<>>
+                      ELSE LET ms == BigDiv(Mul(f.mvhd.duration, <<3, 232>>), f.mvhd.timescale) IN
+                           IF Len(ms) > 8 THEN <<255, 255, 255, 255, 255, 255, 255, 255>> ELSE ms
 =============================================================================
